@@ -27,7 +27,7 @@ COMPONENTS = {"real": ["serialiser / deserialiser / descriptor table (output.c, 
 ASSUMPTIONS = ["callbacks are re-attached after every restore (the property's proviso)",
                "struct view X compares every scalar member of struct reb_simulation taken from DWARF except the transient members listed in c05.TRANSIENT",
                "save points inside integrate(): only the trajectory at the end of that integrate call is compared (caller-side loop state is not part of any snapshot)"]
-PROBES = ["saved_unsynchronized", "saved_after_merge", "saved_with_variational", "saved_in_encounter", "transport_file", "transport_bytes", "transport_pickle",
+PROBES = ["live_arrays_compared", "saved_unsynchronized", "saved_after_merge", "saved_with_variational", "saved_in_encounter", "transport_file", "transport_bytes", "transport_pickle",
           "transport_copy", "transport_archive_delta", "transport_auto_snapshot", "continued_steps"]
 
 # members of struct reb_simulation that are scratch / bookkeeping recomputed by the library and legitimately
@@ -57,6 +57,13 @@ TRANSPORTS = ["file", "bytes", "pickle", "copy", "archive", "archive"]
 
 def generate(rng, tier, index):
     c = rng.derive("cfg")
+    if rng.derive("compact").chance(0.05):
+        cfg = simgen.gen_compact_config(c)
+        cfg["alloc"] = c.choice([1, 2, 2])
+        o = rng.derive("ops")
+        ops = [dict(op="steps", n=o.randint(100, 400)), dict(op="save", via=o.choice(TRANSPORTS)), dict(op="steps", n=o.randint(150, 350)), dict(op="save", via=o.choice(TRANSPORTS)),
+               dict(op="steps", n=o.randint(150, 350))]
+        return dict(config=cfg, ops=ops, clock_step=0, fill0=rng.derive("fill").randint(0, 3))
     if c.chance(0.2):
         cfg = simgen.gen_box_config(c, nmax=40 if tier == "quick" else 140, allow_shear=True)
     else:
@@ -80,7 +87,7 @@ def generate(rng, tier, index):
     nsave = sum(1 for x in ops if x["op"] == "save")
     for i in range(nops):
         k = o.weighted([("steps", 30), ("integrate", 10), ("save", 22 if nsave < 4 else 0), ("add", 5), ("remove", 5), ("sync", 5), ("set", 5), ("move", 4),
-                        ("clock_jump", 4), ("energy", 3), ("auto", 4 if nsave < 4 else 0), ("switch", 3 if not cfg.get("box") else 0), ("reset_integrator", 2 if not cfg.get("box") else 0)])
+                        ("clock_jump", 4), ("energy", 3), ("set_lrescale", 4 if (cfg.get("var") or cfg.get("megno")) else 0), ("auto", 4 if nsave < 4 else 0), ("switch", 3 if not cfg.get("box") else 0), ("reset_integrator", 2 if not cfg.get("box") else 0)])
         if k == "steps":
             ops.append(dict(op="steps", n=o.randint(1, 25)))
         elif k == "integrate":
@@ -106,6 +113,8 @@ def generate(rng, tier, index):
             ops.append(dict(op="reset_integrator"))
         elif k == "move":
             ops.append(dict(op="move", pick=o.randint(0, 50), dx=o.uniform(-1e-3, 1e-3), dvy=o.uniform(-1e-3, 1e-3), fm=o.choice([1.0, 1.5])))
+        elif k == "set_lrescale":
+            ops.append(dict(op="set_lrescale", pick=o.randint(0, 5), value=o.choice([-1.0, 12.5, 230.25])))
         elif k == "clock_jump":
             ops.append(dict(op="clock_jump", us=o.choice([3600 * 10**6, -3600 * 10**6, 10**12, -10**9])))
         else:
@@ -113,7 +122,7 @@ def generate(rng, tier, index):
     if nsave == 0:
         ops.insert(o.randint(0, len(ops)), dict(op="save", via=o.choice(TRANSPORTS)))
     ops.append(dict(op="steps", n=o.randint(1, 10)))
-    return dict(config=cfg, ops=ops, clock_step=rng.derive("clk").choice([0, 1, 1000, 10**6]))
+    return dict(config=cfg, ops=ops, clock_step=rng.derive("clk").choice([0, 1, 1000, 10**6]), fill0=rng.derive("fill").randint(0, 3))
 
 
 def is_box(cfg):
@@ -145,6 +154,8 @@ def execute(case, ctx):
     O = simgen.build(rebound, rb, cfg)
     box = is_box(cfg)
     followers = []   # (label, sim, cfg copy)
+    FILLS = (0xCB, 0x00, 0xFF, 0x5A)
+    fill0 = case.get("fill0", 0)
     kinds = []
     WT = (126, 127)
 
@@ -209,6 +220,15 @@ def execute(case, ctx):
         if d:
             viol("restore", "persisted content differs after restore", "%s: fields %s" % (label, rb.describe_fields(d)), key="restore:S:" + ",".join(str(x) for x in d[:3]))
             return False
+        aO, aR = rb.A(O, drop=drop), rb.A(R, drop=drop)
+        if uses_tree:
+            aO.pop(rb.F_PARTICLES, None); aR.pop(rb.F_PARTICLES, None)      # (flagged particles, order: compared through the S view above)
+        da = rb.S_diff(aO, aR)
+        if da:
+            viol("restore", "array content differs in memory after restore although the serialised content agrees", "%s: fields %s" % (label, rb.describe_fields(da)),
+                 key="restore:A:" + ",".join(str(x) for x in da[:3]))
+            return False
+        probe("live_arrays_compared", len(aO))
         x = xview_diff(O, R)
         if x:
             viol("restore", "setting lost on restore (struct member differs)", "%s: members %s (original %r, restored %r)" % (label, x[:6], rb.getf(O, x[0]), rb.getf(R, x[0])), key="restore:X:" + x[0])
@@ -253,13 +273,15 @@ def execute(case, ctx):
     def apply_all(op):
         """apply op to O and all followers; False if something raised in one but not the other"""
         res = []
-        for lab, s, c in [("O", O, cfg)] + followers:
+        for ai, (lab, s, c) in enumerate([("O", O, cfg)] + followers):
+            rb.alloc_fill(FILLS[(ai + fill0) % len(FILLS)] if ai else 0xCB)     # every restored simulation works on a heap with other garbage in it
             try:
                 with rb.quiet():
                     r = OPS.apply(rebound, rb, s, c, op)
                 res.append(("ok", r))
             except (rebound.Escape, rebound.NoParticles, rebound.Encounter, rebound.Collision, rebound.GenericError, RuntimeError, AttributeError, ValueError) as e:
                 res.append(("raised", type(e).__name__))
+        rb.alloc_fill(0xCB)
         if any(r != res[0] for r in res[1:]):
             viol("continue", "operation outcome differs between original and restored simulation", "%s: %s" % (op["op"], res), key="continue:outcome")
             return False
@@ -283,7 +305,9 @@ def execute(case, ctx):
                 probe("saved_unsynchronized")
             if O.N_var:
                 probe("saved_with_variational")
+            rb.alloc_fill(FILLS[(len(followers) + 1 + fill0) % len(FILLS)])
             R = restore(via, label)
+            rb.alloc_fill(0xCB)
             if not check_restored(R, label):
                 break
             if len(followers) < 3:
